@@ -42,6 +42,10 @@ func (g *Gen) genFrozen(n int) error {
 			g.bigFrozenCase([]int{1026, 1025}[(i/29)%2])
 			continue
 		}
+		if i%29 == 21 && g.dumpfiles {
+			g.wideSchemaCase(true)
+			continue
+		}
 		m := chunkModes[i%len(chunkModes)]
 		g.curMode = m
 		g.emit("cfg chunkmode=%d", m)
@@ -208,11 +212,16 @@ func (g *Gen) vecQueries(seg string, handlePrefix string) {
 			}
 		}
 		g.r.Shuffle(len(combos), func(i, j int) { combos[i], combos[j] = combos[j], combos[i] })
+		// one eligible set that the caller keeps and hands to every filtered handle of the field
+		shared := g.liveSubset(nd, "nil", 1)
 		for _, cb := range combos {
 			ex, filt := cb.ex, cb.filt
 			{
 				h := g.fresh(handlePrefix)
 				g.emit("vopen %s %s %s filt=%s ex=%s", h, seg, f, filt, ex)
+				if filt == "1" && shared != "-" {
+					g.emit("vsearch %s q=%s k=%d elig=%s", h, g.randQuery(dim), nd+3, shared)
+				}
 				for _, k := range []int{0, 1, 2, nd, nd + 3} {
 					if k == 0 && !g.chance(0.2) {
 						continue
@@ -329,8 +338,14 @@ func (g *Gen) bigVecMerge() {
 	g.newBuilt(s, b)
 	nd := len(b.Docs)
 	var dropped []int
+	frac := 0.1
+	if g.chance(0.5) {
+		// so many deletions that fewer than 1000 vectors survive: the merged index is an exact one again
+		frac = 0.45
+		g.st("vec.bigmerge.exactagain")
+	}
 	for d := 0; d < nd; d++ {
-		if d < 10 || g.chance(0.1) {
+		if d < 10 || g.chance(frac) {
 			dropped = append(dropped, d)
 		}
 	}
@@ -347,6 +362,9 @@ func (g *Gen) bigVecMerge() {
 			g.emit("vsearch %s q=%s k=5", h, intList(v))
 		}
 	}
+	// every surviving vector, and a best-50: exact answers when the index is an exact one
+	g.emit("vsearch %s q=%s k=%d", h, g.randQuery(2), 3*nd)
+	g.emit("vsearch %s q=%s k=50", h, g.randQuery(2))
 	g.emit("vclose %s", h)
 	g.emit("close %s", m)
 	g.emit("close %s", s)
@@ -416,6 +434,43 @@ func (g *Gen) genC16(n int) error {
 		var open []string
 		openFilt := map[string]bool{}
 		openEx := map[string]string{}
+		if i%4 == 1 {
+			// an unfiltered caller fills the cache, the first filtering caller (with its own exclusions)
+			// upgrades the entry; its unfiltered and full-selectivity searches still honour the exclusions
+			fn := g.pick([]string{"vecA", "vecB"})
+			h1, h2 := g.fresh("h"), g.fresh("h")
+			g.emit("vopen %s %s %s filt=0 ex=%s", h1, seg, fn, g.randDrops(nd))
+			g.emit("vsearch %s q=%s k=%d", h1, g.randQuery(2), nd*3)
+			ex2 := intList([]int{0, nd - 1})
+			g.emit("vopen %s %s %s filt=1 ex=%s", h2, seg, fn, ex2)
+			g.emit("vsearch %s q=%s k=%d", h2, g.randQuery(2), nd*3)
+			all := make([]int, nd)
+			for d := range all {
+				all[d] = d
+			}
+			g.emit("vsearch %s q=%s k=%d elig=%s", h2, g.randQuery(2), nd*3, intList(all))
+			g.emit("vsearch %s q=%s k=%d elig=%s", h2, g.randQuery(2), nd*3, g.liveSubset(nd, ex2, 1))
+			g.emit("vclose %s", h1)
+			g.emit("vclose %s", h2)
+			g.emit("vrefs %s", seg)
+		}
+		if i%4 == 2 {
+			// first opens of an uncached field by several goroutines at once, every other one filtering
+			g.emit("vtick %s", seg)
+			g.emit("vtick %s", seg)
+			hp := g.fresh("h")
+			fn := g.pick([]string{"vecA", "vecB"})
+			g.emit("par %d rounds=1 ordered=1", 4+g.r.Intn(5))
+			g.emit("vopen %s %s %s filt=g ex=nil", hp, seg, fn)
+			g.emit("vsearch %s q=%s k=%d", hp, g.randQuery(2), nd*3)
+			g.emit("vsearch %s q=%s k=2", hp, g.randQuery(2))
+			g.emit("vclose %s", hp)
+			g.emit("endpar")
+			g.emit("vrefs %s", seg)
+			g.emit("vtick %s", seg)
+			g.emit("vtick %s", seg)
+			g.emit("vcounters")
+		}
 		nev := 3 + g.r.Intn(maxEv)
 		for e := 0; e < nev; e++ {
 			switch g.r.Intn(10) {
@@ -604,8 +659,11 @@ func (g *Gen) bigFrozenCase(mode int) {
 	g.emit("q post %s tag . ex=nil fl=111 ops=%s", o, g.nexts(nd/30+2))
 	g.emit("q post %s tag . ex=%s fl=111 ops=%s", o, intList(few), g.nexts(nd/30+2))
 	st := g.fresh("st")
+	st2 := g.fresh("st")
 	for _, d := range []int{0, 1, 1023, 1024, 1025, nd - 1, 512, 1030, 3} {
 		g.emit("q dv %s %s fields=body,_id,tag doc=%d", o, st, d)
+		// a second private state, always in another chunk than the first
+		g.emit("q dv %s %s fields=body,_id,tag doc=%d", o, st2, (d+1050)%nd)
 		g.emit("q stored %s %d stop=*", o, d)
 		g.emit("q docid %s %d", o, d)
 	}
